@@ -82,6 +82,13 @@ def ordinal_cases(draw):
     spec = draw(hist.spec_st(max_n=6))
     N = draw(st.integers(spec["workers"] + 2, 30))
     kind = "order" if spec["workers"] > 1 else "restart"
+    if draw(st.sampled_from([False] * 29 + [True])):
+        # the streams of job k depend on seed and ordinal, not on what the sampler had to compute on the way: a system with so
+        # many wire-fencing ensembles that the probabilities come from the Monte-Carlo routine vs. the same system with plain shooting
+        n = draw(st.integers(14, 15))
+        spec = simdrv.lattice_spec(n=n, moves=["sh"] + ["wf"] * (n - 1), workers=1, steps=0, seed=spec["seed"], maxlength=4000, n_jumps=2)
+        spec["full_start"] = True
+        N, kind = 2, "weights"  # (each step costs several Monte-Carlo estimates: kept short and rare)
     case = {"spec": spec, "N": N, "kind": kind, "seed2": draw(st.integers(0, 2**32 - 1)),
             "pol": draw(st.sampled_from(["random", "newest", "straggler"])), "pol_seed": draw(st.integers(0, 99)),
             "points": sorted(set(draw(st.lists(st.integers(1, N - 1), min_size=1, max_size=2))))}
@@ -102,6 +109,8 @@ def body_ordinal(rec, c):
              sample={"spec": spec, "N": N, "kind": c["kind"]} if len(rec.samples) < 1 else None)
     if c["kind"] == "order":
         other = {"spec": spec, "segments": [dict(steps=N, policy=c["pol"], policy_seed=c["pol_seed"], **zs)]}
+    elif c["kind"] == "weights":
+        other = {"spec": dict(spec, moves=["sh"] * spec["n"]), "segments": base["segments"]}
     else:
         other = {"spec": spec, "segments": [dict(steps=p, policy="oldest", **zs) for p in c["points"] + [N]]}
     b, _, _ = collect(other)
@@ -113,6 +122,8 @@ def body_ordinal(rec, c):
             rec.check(False, f"C07:stream-not-function-of-seed-and-ordinal:{c['kind']}", f"job ordinal {k}: {A[k][0][0]} vs {B[k][0][0]}\n  case={c}")
             break
     rec.check(len(A) == N and len(B) == N, "C07:ordinals-not-one-per-step", f"{len(A)} / {len(B)} jobs for {N} steps")
+    if c["kind"] == "weights":
+        return
     # another seed changes every stream
     spec2 = dict(spec)
     spec2["seed"] = c["seed2"] if c["seed2"] != spec["seed"] else spec["seed"] + 1
